@@ -1,4 +1,8 @@
-// Package c13: lexical path functions of avfs versus Go's path/filepath.
+// Package c13: lexical path functions of avfs (generic implementation, build
+// tag avfs_setostype) versus Go's own path/filepath for the emulated OS:
+// OS 0 = Linux (path/filepath of this toolchain), OS 1 = Windows (the
+// mechanically retargeted copy of the toolchain's Windows implementation,
+// verif/harness/gen/winfp, produced by /verif/cmd/genwin).
 package c13
 
 import (
@@ -7,34 +11,368 @@ import (
 	"github.com/avfs/avfs"
 	"github.com/avfs/avfs/vfs/memfs"
 
+	winfp "verif/harness/gen/winfp"
 	"verif/harness/sym"
 )
 
 func init() {
-	sym.Register("c13.HCleanLinux", HCleanLinux)
+	sym.Register("c13.HClean", HClean)
+	sym.Register("c13.HSplit", HSplit)
+	sym.Register("c13.HDir", HDir)
+	sym.Register("c13.HBase", HBase)
+	sym.Register("c13.HIsAbs", HIsAbs)
+	sym.Register("c13.HFromSlash", HFromSlash)
+	sym.Register("c13.HToSlash", HToSlash)
+	sym.Register("c13.HVolumeName", HVolumeName)
+	sym.Register("c13.HJoin", HJoin)
+	sym.Register("c13.HJoin3", HJoin3)
+	sym.Register("c13.HRel", HRel)
+	sym.Register("c13.HMatch", HMatch)
+	sym.Register("c13.HAbs", HAbs)
+	sym.Register("c13.HPathIter", HPathIter)
+	sym.Register("c13.HReplacePart", HReplacePart)
+	sym.Register("c13.HFromUnixPath", HFromUnixPath)
+	sym.Register("c13.HSplitAbs", HSplitAbs)
 	sym.Register("c13.HBad", HBad)
 }
 
-func linuxFS() *memfs.MemFS {
+func osName(os int) string {
+	if os == 1 {
+		return "windows"
+	}
+	return "linux"
+}
+
+// newFS returns a MemFS whose lexical helpers emulate the given OS. The OS type
+// is installed through the verification overlay, not through SetOSType (C17).
+func newFS(os int) *memfs.MemFS {
 	var m memfs.MemFS
-	avfs.VerifSetOS(&m.OSTypeFn, avfs.OsLinux, '/')
+	if os == 1 {
+		avfs.VerifSetOS(&m.OSTypeFn, avfs.OsWindows, '\\')
+	} else {
+		avfs.VerifSetOS(&m.OSTypeFn, avfs.OsLinux, '/')
+	}
 	return &m
 }
 
-// HCleanLinux: avfs.Clean (generic implementation, Linux emulation) == filepath.Clean for every string of n bytes.
-func HCleanLinux(n int) {
+type oracle struct {
+	Clean      func(string) string
+	Split      func(string) (string, string)
+	Dir        func(string) string
+	Base       func(string) string
+	IsAbs      func(string) bool
+	FromSlash  func(string) string
+	ToSlash    func(string) string
+	VolumeName func(string) string
+	Join       func(...string) string
+	Rel        func(string, string) (string, error)
+	Match      func(string, string) (bool, error)
+	Sep        byte
+}
+
+func oracleFor(os int) oracle {
+	if os == 1 {
+		return oracle{winfp.Clean, winfp.Split, winfp.Dir, winfp.Base, winfp.IsAbs, winfp.FromSlash, winfp.ToSlash, winfp.VolumeName, winfp.Join, winfp.Rel, winfp.Match, '\\'}
+	}
+	return oracle{filepath.Clean, filepath.Split, filepath.Dir, filepath.Base, filepath.IsAbs, filepath.FromSlash, filepath.ToSlash, filepath.VolumeName, filepath.Join, filepath.Rel, filepath.Match, '/'}
+}
+
+func sig(os int, fn, what string) string { return "C13|" + osName(os) + "|" + fn + "|" + what }
+
+// volClass classifies an input by whether avfs and the oracle agree on the
+// length of its volume name. The class is part of every violation signature,
+// so that the known Windows version skew (volume-name parsing older than Go
+// 1.23.5's) does not hide a divergence on inputs whose volume is agreed on.
+func volClass(m *memfs.MemFS, o oracle, ss ...string) string {
+	for _, s := range ss {
+		if avfs.VolumeNameLen(m, s) != len(o.VolumeName(s)) {
+			return "volume-skew"
+		}
+	}
+	if o.Sep == '\\' {
+		// Go >= 1.21 keeps a leading double separator after the volume
+		// (possible UNC root); avfs' older Clean collapses it.
+		for _, s := range ss {
+			v := len(o.VolumeName(s))
+			if len(s) >= v+2 && isSep(s[v]) && isSep(s[v+1]) {
+				return "double-separator-root"
+			}
+		}
+	}
+	return "plain"
+}
+
+func isSep(c byte) bool { return c == '\\' || c == '/' }
+
+func sigc(os int, fn, what string, m *memfs.MemFS, o oracle, ss ...string) string {
+	return sig(os, fn, what) + "|" + volClass(m, o, ss...)
+}
+
+func str1(os int, fn string, n int, impl func(*memfs.MemFS, string) string, ref func(oracle, string) string) {
 	s := sym.String("s", n)
-	m := linuxFS()
-	sym.Reach("called")
-	got := avfs.Clean(m, s)
-	want := filepath.Clean(s)
+	m := newFS(os)
+	o := oracleFor(os)
+	sym.Label(osName(os) + "|" + fn)
+	sym.Reach(fn)
+	got := impl(m, s)
+	want := ref(o, s)
 	sym.Observe("got", got)
-	sym.Assert(got == want, "C13|linux|Clean|result")
+	sym.Assert(got == want, sigc(os, fn, "result", m, o, s))
+}
+
+func HClean(os, n int) {
+	str1(os, "Clean", n, func(m *memfs.MemFS, s string) string { return avfs.Clean(m, s) }, func(o oracle, s string) string { return o.Clean(s) })
+}
+
+func HDir(os, n int) {
+	str1(os, "Dir", n, func(m *memfs.MemFS, s string) string { return avfs.Dir(m, s) }, func(o oracle, s string) string { return o.Dir(s) })
+}
+
+func HBase(os, n int) {
+	str1(os, "Base", n, func(m *memfs.MemFS, s string) string { return avfs.Base(m, s) }, func(o oracle, s string) string { return o.Base(s) })
+}
+
+func HFromSlash(os, n int) {
+	str1(os, "FromSlash", n, func(m *memfs.MemFS, s string) string { return avfs.FromSlash(m, s) }, func(o oracle, s string) string { return o.FromSlash(s) })
+}
+
+func HToSlash(os, n int) {
+	str1(os, "ToSlash", n, func(m *memfs.MemFS, s string) string { return avfs.ToSlash(m, s) }, func(o oracle, s string) string { return o.ToSlash(s) })
+}
+
+func HVolumeName(os, n int) {
+	str1(os, "VolumeName", n, func(m *memfs.MemFS, s string) string { return avfs.VolumeName(m, s) }, func(o oracle, s string) string { return o.VolumeName(s) })
+}
+
+func HSplit(os, n int) {
+	s := sym.String("s", n)
+	m := newFS(os)
+	o := oracleFor(os)
+	sym.Label(osName(os) + "|Split")
+	sym.Reach("Split")
+	d, f := avfs.Split(m, s)
+	wd, wf := o.Split(s)
+	sym.Observe("dir", d)
+	sym.Observe("file", f)
+	sym.Assert(d == wd, sigc(os, "Split", "dir", m, o, s))
+	sym.Assert(f == wf, sigc(os, "Split", "file", m, o, s))
+}
+
+func HIsAbs(os, n int) {
+	s := sym.String("s", n)
+	m := newFS(os)
+	o := oracleFor(os)
+	sym.Label(osName(os) + "|IsAbs")
+	sym.Reach("IsAbs")
+	got := avfs.IsAbs(m, s)
+	want := o.IsAbs(s)
+	sym.Observe("got", got)
+	sym.Assert(got == want, sigc(os, "IsAbs", "result", m, o, s))
+}
+
+func HJoin(os, n1, n2 int) {
+	a := sym.String("a", n1)
+	b := sym.String("b", n2)
+	m := newFS(os)
+	o := oracleFor(os)
+	sym.Label(osName(os) + "|Join")
+	sym.Reach("Join")
+	got := avfs.Join(m, a, b)
+	want := o.Join(a, b)
+	sym.Observe("got", got)
+	sym.Assert(got == want, sigc(os, "Join", "result", m, o, a, b, want))
+}
+
+func HJoin3(os, n1, n2, n3 int) {
+	a := sym.String("a", n1)
+	b := sym.String("b", n2)
+	c := sym.String("c", n3)
+	m := newFS(os)
+	o := oracleFor(os)
+	sym.Label(osName(os) + "|Join3")
+	sym.Reach("Join3")
+	got := avfs.Join(m, a, b, c)
+	want := o.Join(a, b, c)
+	sym.Observe("got", got)
+	sym.Assert(got == want, sigc(os, "Join3", "result", m, o, a, b, c, want))
+}
+
+func ascii(s string) bool {
+	for i := 0; i < len(s); i++ {
+		if s[i] >= 0x80 {
+			return false
+		}
+	}
+	return true
+}
+
+func HRel(os, n1, n2 int) {
+	a := sym.String("a", n1)
+	b := sym.String("b", n2)
+	if os == 1 {
+		// strings.EqualFold walks Unicode tables for non-ASCII input: outside the claim
+		sym.Assume(ascii(a))
+		sym.Assume(ascii(b))
+	}
+	m := newFS(os)
+	o := oracleFor(os)
+	sym.Label(osName(os) + "|Rel")
+	sym.Reach("Rel")
+	got, gerr := avfs.Rel(m, a, b)
+	want, werr := o.Rel(a, b)
+	sym.Observe("got", got)
+	sym.Observe("err", gerr != nil)
+	sym.Assert((gerr != nil) == (werr != nil), sigc(os, "Rel", "error", m, o, a, b))
+	if gerr == nil && werr == nil {
+		sym.Assert(got == want, sigc(os, "Rel", "result", m, o, a, b))
+	}
+}
+
+func HMatch(os, n1, n2 int) {
+	p := sym.String("p", n1)
+	s := sym.String("s", n2)
+	m := newFS(os)
+	o := oracleFor(os)
+	sym.Label(osName(os) + "|Match")
+	sym.Reach("Match")
+	got, gerr := avfs.Match(m, p, s)
+	want, werr := o.Match(p, s)
+	sym.Observe("got", got)
+	sym.Observe("err", gerr != nil)
+	sym.Assert((gerr != nil) == (werr != nil), sig(os, "Match", "error"))
+	sym.Assert(got == want, sig(os, "Match", "result"))
+}
+
+// HAbs: Abs(path) with working directory cwd equals filepath.Abs on a Unix
+// system whose working directory is cwd (unixAbs: IsAbs ? Clean : Join(wd, path)).
+// Windows Abs is GetFullPathName (Win32) and is outside the claim.
+func HAbs(os, n1 int) {
+	p := sym.String("p", n1)
+	m := newFS(os)
+	o := oracleFor(os)
+	sym.Label(osName(os) + "|Abs")
+	sym.Reach("Abs")
+	cwd := "/w/d"
+	got, err := avfs.Abs(m, p, cwd)
+	var want string
+	if o.IsAbs(p) {
+		want = o.Clean(p)
+	} else {
+		want = o.Join(cwd, p)
+	}
+	sym.Observe("got", got)
+	sym.Assert(err == nil, sig(os, "Abs", "error"))
+	sym.Assert(got == want, sigc(os, "Abs", "result", m, o, p, want))
+}
+
+// components of a clean absolute path after its volume name (reference splitting).
+func components(rest string, sep byte) []string {
+	var out []string
+	start := 0
+	for i := 0; i <= len(rest); i++ {
+		if i == len(rest) || rest[i] == sep {
+			if i > start {
+				out = append(out, rest[start:i])
+			}
+			start = i + 1
+		}
+	}
+	return out
+}
+
+// HPathIter: a PathIterator over a clean absolute path yields exactly its
+// separator-delimited parts in order; Left+Part+Right always reassembles the path.
+func HPathIter(os, n int) {
+	p := sym.String("p", n)
+	m := newFS(os)
+	o := oracleFor(os)
+	sym.Label(osName(os) + "|PathIterator")
+	sym.Assume(o.IsAbs(p))
+	sym.Assume(o.Clean(p) == p)
+	sym.Reach("PathIterator")
+	vol := len(o.VolumeName(p))
+	want := components(p[vol:], o.Sep)
+	pi := avfs.NewPathIterator(m, p)
+	sym.Assert(pi.VolumeNameLen() == vol, sigc(os, "PathIterator", "volume", m, o, p))
+	i := 0
+	for pi.Next() {
+		sym.Assert(i < len(want), sig(os, "PathIterator", "too-many-parts"))
+		sym.Assert(pi.Part() == want[i], sig(os, "PathIterator", "part"))
+		sym.Assert(pi.Left()+pi.Part()+pi.Right() == p, sig(os, "PathIterator", "reassemble"))
+		sym.Assert(pi.Start() >= 0 && pi.Start() <= pi.End() && pi.End() <= len(p), sig(os, "PathIterator", "cursor"))
+		sym.Assert(pi.IsLast() == (i == len(want)-1), sig(os, "PathIterator", "islast"))
+		i++
+		if i > n+1 {
+			break
+		}
+	}
+	sym.Observe("parts", i)
+	sym.Assert(i == len(want), sig(os, "PathIterator", "count"))
+}
+
+// HReplacePart: splicing newPath in place of part k yields the Join of the
+// pieces, and iteration continues with the components of the spliced path.
+func HReplacePart(os, n, k, nn int) {
+	p := sym.String("p", n)
+	np := sym.String("np", nn)
+	m := newFS(os)
+	o := oracleFor(os)
+	sym.Label(osName(os) + "|ReplacePart")
+	sym.Assume(o.IsAbs(p))
+	sym.Assume(o.Clean(p) == p)
+	vol := len(o.VolumeName(p))
+	comps := components(p[vol:], o.Sep)
+	sym.Assume(k < len(comps))
+	sym.Reach("ReplacePart")
+	pi := avfs.NewPathIterator(m, p)
+	for i := 0; i <= k; i++ {
+		pi.Next()
+	}
+	left, right := pi.Left(), pi.Right()
+	var want string
+	if o.IsAbs(np) {
+		want = o.Join(np, right)
+	} else {
+		want = o.Join(left, np, right)
+	}
+	res := sym.Outcome(func() { pi.ReplacePart(np) })
+	sym.Assert(!res.Panicked, sig(os, "ReplacePart", "panic"))
+	sym.Observe("path", pi.Path())
+	sym.Assert(pi.Path() == want, sigc(os, "ReplacePart", "join", m, o, p, np, want))
+}
+
+// HFromUnixPath never panics (C07 shares this) and maps as documented.
+func HFromUnixPath(os, n int) {
+	p := sym.String("p", n)
+	m := newFS(os)
+	sym.Label(osName(os) + "|FromUnixPath")
+	sym.Reach("FromUnixPath")
+	var got string
+	res := sym.Outcome(func() { got = avfs.FromUnixPath(m, p) })
+	sym.Assert(!res.Panicked, sig(os, "FromUnixPath", "panic"))
+	if os == 0 {
+		sym.Assert(got == p, sig(os, "FromUnixPath", "identity"))
+	}
+}
+
+// HSplitAbs: dir + separator + file reassembles an absolute clean path.
+func HSplitAbs(os, n int) {
+	p := sym.String("p", n)
+	m := newFS(os)
+	o := oracleFor(os)
+	sym.Label(osName(os) + "|SplitAbs")
+	sym.Assume(o.IsAbs(p))
+	sym.Assume(o.Clean(p) == p)
+	sym.Reach("SplitAbs")
+	var d, f string
+	res := sym.Outcome(func() { d, f = avfs.SplitAbs(m, p) })
+	sym.Assert(!res.Panicked, sig(os, "SplitAbs", "panic"))
+	sym.Assert(d+string(o.Sep)+f == p, sig(os, "SplitAbs", "reassemble"))
 }
 
 // HBad is a deliberately false claim (engine self-test): Clean is the identity.
 func HBad(n int) {
 	s := sym.String("s", n)
-	m := linuxFS()
+	m := newFS(0)
 	sym.Assert(avfs.Clean(m, s) == s, "SELFTEST|Clean-is-identity")
 }
